@@ -5,7 +5,7 @@ from harness.common import LINE_TERMINATORS, VERSIONS, Reject, Violation, listen
 
 PROPERTY = "C01"
 BOUNDS = {
-    "quick": "node,child sym [0,255]; ack sym [0,1]; type sym [-1,99]; payload symbolic unicode (';' allowed, no line terminator, no trailing whitespace, no lone surrogate) |p|<=1, and |p|<=2 for set messages under 2.2; versions 1.4 and 2.2 x 5 commands, 1.5/2.0/2.1 x internal; re-encode with 4 trailing-whitespace variants (set, type [0,9], |p|<=1, versions 1.5, 2.1); gateway send->listen under 2.0 (node [0,99], type [0,9], |p|<=1)",
+    "quick": "node,child sym [0,255]; ack sym [0,1]; type sym [-1,99]; payload symbolic unicode (';' allowed, no line terminator, no trailing whitespace, no lone surrogate) |p|<=1, and |p|<=2 for set messages under 2.2; versions 1.4 and 2.2 x 5 commands, 1.5/2.0/2.1 x internal; long payloads: concrete prefixes of 24/63/255 characters + ';' + symbolic tail (versions 1.4, 2.2); decode-mutate-decode-again; re-encode with 4 trailing-whitespace variants (set, type [0,9], |p|<=1, versions 1.5, 2.1); gateway send->listen under 2.0 (node [0,99], type [0,9], |p|<=1)",
     "thorough": "node,child sym [0,255]; ack; type sym [-3,100000]; |p|<=3; 5 versions x 5 commands; re-encode 5 versions x 5 commands (type [0,999], |p|<=2); gateway send->listen 5 versions x {set, internal} (node [0,255], type [0,9], |p|<=1)",
 }
 REALISED = ["negative type numbers are realised by CrossHair's int() model (window [-3,-1])"]
@@ -35,6 +35,9 @@ def partitions(tier):
             parts.append({"name": "reencode-%s-cmd%d" % (v, cmd), "fn": "sym_reencode", "version": v, "cmd": cmd,
                           "maxlen": 1 if q else 2, "tlo": 0, "thi": 9 if q else 999,
                           "budget": 400 if q else 3000, "cost": 3})
+    for v in (("1.4", "2.2") if q else VERSIONS):
+        parts.append({"name": "codec-long-%s" % v, "fn": "sym_roundtrip", "version": v, "cmd": 1, "maxlen": 1, "tlo": 0, "thi": 9,
+                      "idlo": 10, "idhi": 99, "prefixes": [24, 63, 255], "budget": 400 if q else 2000, "cost": 4})
     for v in VERSIONS if not q else ["2.0"]:
         for cmd in (1, 3):
             parts.append({"name": "gateway-%s-cmd%d" % (v, cmd), "fn": "sym_gateway_roundtrip", "version": v, "cmd": cmd,
@@ -71,6 +74,10 @@ def _fields(inp, part):
     ack = inp.int("ack", 0, 1)
     t = inp.int("t", part["tlo"], part["thi"])
     p = inp.str("p", part["maxlen"], exclude=LINE_TERMINATORS, no_trailing_ws=True)
+    if part.get("prefixes"):
+        # long payloads: a concrete prefix of one of several lengths (around typical size limits) + symbolic tail
+        k = part["prefixes"][inp.pick("prefix_len", len(part["prefixes"]))]
+        p = ("0123456789abcdef" * 64)[:k] + ";" + p
     cmd = part["cmd"] if "cmd" in part else inp.pick("cmd", 5)
     if not wellformed(n, c, cmd, ack, t):
         raise Reject
